@@ -222,6 +222,21 @@ Theorem C11_every_path_query_equals_constraints :
 Proof. exact every_path_query_sem_gen. Qed.
 Print Assumptions C11_every_path_query_equals_constraints.
 
+(* a fork condition is a constraint of the forked path from the moment of the fork, but it is
+   in `pending` -- not in `conditions`, hence not in the query -- until Path.activate: the
+   constraints handed to a path are exactly those its query asserts (C11_all_conditions)
+   plus those still pending.  The query of a path is complete iff nothing is pending: a
+   path must be activated before it is serialised (SEVM.run activates every state it takes
+   from the worklist, also one that is only taken out to be yielded) *)
+Theorem C11_pending_is_what_the_query_lacks :
+  forall (cond : Type) (cond_eqb : cond -> cond -> bool) (simp : cond -> cond)
+         (is_true : cond -> bool) (vars : cond -> list Z) ops s0 p,
+    run cond cond_eqb simp is_true vars (empty_path cond s0) ops = Some p ->
+    extends_active_from cond [] ops = true ->
+    forall c, In c (handed cond ops) <-> In c (accumulated cond ops) \/ In c (pending p).
+Proof. exact handed_accumulated_pending. Qed.
+Print Assumptions C11_pending_is_what_the_query_lacks.
+
 (* ---- conditions vs solver.  The z3 solver of a path (used to prune infeasible branches,
    never to build the query) holds nothing but what the solvers handed to Path(...) already
    held and conditions of the path ... *)
